@@ -12,7 +12,6 @@ import (
 	"encoding/binary"
 	"errors"
 	"fmt"
-	"os"
 	"runtime"
 	"strings"
 	"sync"
@@ -27,17 +26,17 @@ import (
 
 // tevent is one trace event (the ndjson schema of ZngFaultTrace.tla).
 type tevent struct {
-	E       string   `json:"e"`
+	E       string    `json:"e"`
 	Stream  *[]string `json:"stream,omitempty"`
-	Threads int      `json:"threads,omitempty"`
-	Mode    string   `json:"mode,omitempty"`
-	Done    *bool    `json:"done,omitempty"`
-	Ch      int      `json:"ch,omitempty"`
-	W       int      `json:"w,omitempty"`
-	Ok      *bool    `json:"ok,omitempty"`
-	Batch   *bool    `json:"batch,omitempty"`
-	Err     *bool    `json:"err,omitempty"`
-	Kind    string   `json:"kind,omitempty"`
+	Threads int       `json:"threads,omitempty"`
+	Mode    string    `json:"mode,omitempty"`
+	Done    *bool     `json:"done,omitempty"`
+	Ch      int       `json:"ch,omitempty"`
+	W       int       `json:"w,omitempty"`
+	Ok      *bool     `json:"ok,omitempty"`
+	Batch   *bool     `json:"batch,omitempty"`
+	Err     *bool     `json:"err,omitempty"`
+	Kind    string    `json:"kind,omitempty"`
 }
 
 func bp(b bool) *bool { return &b }
@@ -425,14 +424,6 @@ func execProto(c *Case, res *Result) {
 	r.mu.Unlock()
 	defer func() {
 		r.releaseAll()
-		if os.Getenv("C11_DEBUG_LATE") != "" {
-			time.Sleep(30 * time.Millisecond)
-			r.mu.Lock()
-			if n := len(r.events); n > 0 && r.events[n-1].E != "quiesced" && res.Outcome == "ok" && res.EndedBy != "" {
-				res.Detail += " late-event:" + r.events[n-1].E + " goroutines:" + strings.Join(repoGoroutines(), " || ")
-			}
-			r.mu.Unlock()
-		}
 		r.mu.Lock()
 		r.active = false
 		res.Trace = r.events
